@@ -915,7 +915,11 @@ class Interp:
         if isinstance(op, ast.NotEq):
             return z3.Not(v_eq(a, b))
         if isinstance(op, (ast.Is, ast.IsNot)):
-            if a is VNone or b is VNone:
+            if (a is VNone and isinstance(b, VOpaque)) or (b is VNone and isinstance(a, VOpaque)):
+                # a value of unknown python type may be None (the value of a NULL component is None)
+                o_ = b if a is VNone else a
+                r = z3.Function('py_is_none_val', ValS, BoolS)(o_.t)
+            elif a is VNone or b is VNone:
                 r = z3.BoolVal(a is b)
             elif isinstance(a, VConst) and isinstance(b, VConst):
                 r = z3.BoolVal(a.py is b.py)
